@@ -29,7 +29,9 @@ static inline size_t myth_globalattr_default_stacksize(void) {
   size_t sz = 0;
   char * env = getenv(ENV_MYTH_DEF_STKSIZE);
   if (env) {
-    sz = atoi(env);
+    /* test the sign as an int: a negative value converted to size_t is huge */
+    int x = atoi(env);
+    if (x > 0) sz = x;
   }
   if (sz <= 0) {
     sz = MYTH_DEF_STACK_SIZE;
